@@ -392,6 +392,14 @@ fn make_style_sections<'a>(
     let mut curr = 0;
     for (start_, end_) in submatches {
         let (start, end) = (*start_, *end_);
+        // Ignore submatches that are not valid, ordered ranges of `line`.
+        if start < curr
+            || end < start
+            || !line.is_char_boundary(start)
+            || !line.is_char_boundary(end)
+        {
+            continue;
+        }
         if start > curr {
             sections.push((non_match_style, &line[curr..start]))
         };
